@@ -3,10 +3,13 @@
 Bounded exhaustive exploration over PROGRAMS x INPUTS.  A generator (c12_gen.py) writes real source modules, one
 per program: every Python-legal signature of up to N parameters over 8 type hints x {required, default} x
 {positional-or-keyword, keyword-only}, as a single function, a list of two functions, a nested dict of functions, a
-class with __init__ parameters and one or two methods (with parameter names shared between __init__ and the method),
-a function + class mixture, a dataclass and a plain class without methods.  Every input of the plan (each parameter
-omitted / on the command line / in a --config file, plus value, layout, option style, config placement and
-as_positional variations) is run through the real ``auto_cli(components, args=[...])``.  The generated callees log
+class with __init__ parameters and one or two methods (with parameter names shared between __init__ and the method;
+methods plain / @classmethod / @staticmethod, methods and constructor defined in the class or inherited from a base
+class), a function + class mixture (class with one or two methods, in a list or nested in a dict group), a dataclass
+and a plain class without methods.  Every input of the plan (each parameter omitted / on the command line / in a
+--config file, plus value, layout, option style, config placement and as_positional variations; sub-command levels
+selected by their tokens or by explicit "subcommand" keys of the config, alone and next to sections of siblings) is
+run through the real ``auto_cli(components, args=[...])``.  The generated callees log
 what they are called with; the log is compared with the binding computed from the signature alone.
 """
 from __future__ import annotations
@@ -387,7 +390,7 @@ def space(quick):
     # m2 of the next kind with nothing / everything inherited; the plain class (inst, inst, "") is in the class
     # blocks already
     kind_variants = [(k, k, inh) for inh in gen.INHERIT for k in K3 if (k, inh) != ("inst", "")]
-    kind_variants += [(k, K3[(i + 1) % 3], inh) for inh in ("", "all") for i, k in enumerate(K3)]
+    mixed_kind_variants = [(k, K3[(i + 1) % 3], inh) for inh in ("", "all") for i, k in enumerate(K3)]
     # for the parameterless method only the constructor side matters: own and inherited constructor x method kind
     init_variants = [(k, k, inh) for inh in ("", "init") for k in K3 if (k, inh) != ("inst", "")] + [("inst", "inst", "all")]
 
@@ -407,7 +410,7 @@ def space(quick):
         klass([(2, 0), (0, 2)], "lean3", ["shared"], (2,), max_dev=1)
         klass([(0, 1), (1, 0)], "lean", None, None, form="mixed")
         klass([(0, 1), (1, 0)], "lean:sel", None, (2,), form="mixed")
-        klass([(0, 1), (1, 0)], "argv:sel", None, (2,), form="mixed", nest=1)
+        klass([(0, 1)], "argv:sel", None, (2,), form="mixed", nest=1)
         kinds([(0, 1)], "lean", kind_variants)
         kinds([(1, 0)], "lean", init_variants)
         # the other default / the other value at position 0 (e.g. Optional[int] = 4 given null, bool = False)
@@ -436,7 +439,7 @@ def space(quick):
         klass([(0, 1), (1, 0), (1, 1), (0, 2), (2, 0)], "lean", None, None, form="mixed")
         klass([(0, 1), (1, 0)], "lean:sel", None, (2,), form="mixed")
         klass([(0, 1), (1, 0)], "argv:sel", None, (2,), form="mixed", nest=1)
-        kinds([(0, 1)], "full", kind_variants)
+        kinds([(0, 1)], "full", kind_variants + mixed_kind_variants)
         kinds([(1, 0)], "lean", init_variants)
         kinds([(1, 1)], "lean", [("cls", "cls", "all"), ("static", "static", "meth")])
         for form in ("func", "list", "dataclass", "plainclass", "dict"):
